@@ -417,6 +417,9 @@ func HarnessC13StopRetry() {
 		if err := e.Stop(context.Background(), name); err != nil {
 			failed = true
 			zz.Cover("removal-failed")
+			// until a stop succeeds the engine's report and the controller
+			// agree: what is reported running has not been cancelled
+			zz.Assert("controller-reported-running-after-a-failed-stop-is-not-cancelled", !e.IsRunning(name) || ctx.Err() == nil)
 			continue
 		}
 		stopped = true
